@@ -740,7 +740,13 @@ with SqlImpl.impl_store.impl_manager as impl:
     @impl(ops.pow)
     def _pow(lhs, rhs):
         return_type = sqa.Double()
-        if isinstance(lhs.type, sqa.Numeric) and isinstance(rhs.type, sqa.Numeric):
+        # sqa.Float is a subclass of sqa.Numeric, but only decimals give a decimal
+        if (
+            isinstance(lhs.type, sqa.Numeric)
+            and isinstance(rhs.type, sqa.Numeric)
+            and not isinstance(lhs.type, sqa.Float)
+            and not isinstance(rhs.type, sqa.Float)
+        ):
             return_type = sqa.Numeric()
         return sqa.func.POW(lhs, rhs, type_=return_type)
 
